@@ -71,7 +71,7 @@ func Verif_C13_HTTP() {
 	if useTLS {
 		cs = &tls.ConnectionState{Version: tls.VersionTLS13, ServerName: "example.test"}
 	}
-	ut := &verifTransport{handler: srv, remoteAddr: "9.9.9.9:99", tls: cs}
+	ut := &verifTransport{handler: srv, remoteAddr: "9.9.9.9:99", tls: cs, inline: true}
 	st := &verifStreamTransport{handler: srv, remoteAddr: "9.9.9.9:99", tls: cs}
 	ch := &Channel{Transport: &verifRouter{unary: ut, stream: st}, BaseURL: verifURL(scheme, host, "/")}
 
